@@ -135,7 +135,7 @@ func crashSignature(stderr string) (shape, reason string, stack []string) {
 }
 
 func run(c *lib.Ctx) {
-	c.Rule("batch i = PRNG-determined sequence of scenarios against one fresh node per child process: stream frames on the 7 /chain33/ protocol ids (nothing, header only, bad header, empty message, over-long and 2^32..63 length prefixes, truncated, absent sub-message, garbage, wrong type, extreme values, byte mutations), " +
+	c.Rule("batch i = PRNG-determined sequence of scenarios against one fresh node per child process: stream frames on the 7 /chain33/ protocol ids (nothing, header only, bad header, empty message, over-long and maximal length prefixes, truncated, absent sub-message, garbage, wrong type, extreme values, byte mutations), " +
 		"hostile replies to the node's download / peer-info / version requests, pubsub payloads (not snappy, snappy of garbage, declared length 2^26..30, byte-mutated snappy/protobuf, wrong type) and structure-aware mutations of valid tx / batch / block / light block / peer messages, " +
 		"light blocks with count != hash list, negative, 0, 2^14..22, >= 2^45 and (one per batch) 2^36, light blocks whose short hash resolves to a group that runs past the end of the block with the group reaching the pool before or after the block is pending, " +
 		"direct subscriber-path injection on all topics, floods of block requests followed by chain growth. Every scenario is logged to disk before execution. " +
